@@ -145,6 +145,32 @@ pub fn big_aba<L: KeyboardLayout>(layout: L, key: KeyCode, tog: KeyCode, alterna
     out
 }
 
+/// The ABA shape for a numpad key: NumLock switched off, the key (its navigation alias), n - 1 CapsLock presses and one
+/// NumLock press (exactly n changes, NumLock on again), the key again; then the same back to NumLock off.
+pub fn numlock_aba<L: KeyboardLayout>(layout: L, key: KeyCode, n: u64) -> Vec<BigObs> {
+    let mut kb = Keyboard::new(ScancodeSet2::new(), layout, HandleControl::MapLettersToUnicode);
+    let mut out = Vec::new();
+    let mut press = |kb: &mut Keyboard<L, ScancodeSet2>, step: &'static str| {
+        let pre = kb.get_modifiers().clone();
+        let got = kb.process_keyevent(KeyEvent::new(key, KeyState::Down));
+        let _ = kb.process_keyevent(KeyEvent::new(key, KeyState::Up));
+        out.push(BigObs { step, pre, mods: bits_from_mods(kb.get_modifiers()), mode: kb.get_ctrl_handling(), got });
+    };
+    let _ = kb.process_keyevent(KeyEvent::new(KeyCode::NumpadLock, KeyState::Down));
+    press(&mut kb, "NumLock off");
+    for _ in 0..n.saturating_sub(1) {
+        std::hint::black_box(kb.process_keyevent(KeyEvent::new(KeyCode::CapsLock, KeyState::Down)));
+    }
+    let _ = kb.process_keyevent(KeyEvent::new(KeyCode::NumpadLock, KeyState::Down));
+    press(&mut kb, "NumLock on again after n changes");
+    for _ in 0..n.saturating_sub(1) {
+        std::hint::black_box(kb.process_keyevent(KeyEvent::new(KeyCode::CapsLock, KeyState::Down)));
+    }
+    let _ = kb.process_keyevent(KeyEvent::new(KeyCode::NumpadLock, KeyState::Down));
+    press(&mut kb, "NumLock off again after n changes");
+    out
+}
+
 pub const BIG_COMBOS: [(KeyCode, bool, KeyCode); 4] = [
     (KeyCode::RShift, true, KeyCode::LShift),
     (KeyCode::RControl, true, KeyCode::LControl),
@@ -211,6 +237,19 @@ pub fn leaf_collision_pairs(li: usize, keys: &[KeyCode]) -> (Vec<PairObs>, u64, 
         if let Ok(Some(r)) = r {
             fingerprinted += 1;
             for (path, value) in crate::novelty::flatten(&r) {
+                // a wide number may pack several things (a hash and a value): its halves and quarters are fields of their own
+                if let Ok(v) = value.parse::<u64>() {
+                    if v > 0xFFFF {
+                        let parts: [(&str, u64); 6] = [("hi32", v >> 32), ("lo32", v & 0xFFFF_FFFF), ("q0", v & 0xFFFF), ("q1", (v >> 16) & 0xFFFF), ("q2", (v >> 32) & 0xFFFF), ("q3", v >> 48)];
+                        for (tag, part) in parts {
+                            if part != 0 {
+                                let mut h = DefaultHasher::new();
+                                (&path, tag, part).hash(&mut h);
+                                vals.push((h.finish(), n));
+                            }
+                        }
+                    }
+                }
                 let mut h = DefaultHasher::new();
                 (path, value).hash(&mut h);
                 vals.push((h.finish(), n));
@@ -295,6 +334,51 @@ pub fn named_key_sequences() -> Vec<Vec<KeyCode>> {
 
 pub fn magic_key_histories() -> Vec<Vec<HOp>> {
     let mut out = Vec::new();
+    // chords as real systems send them, with their releases: AltGr arriving as LCtrl + RAlt (Windows, VMs, remote desktops),
+    // bracketing a key or nothing, repeated; then the same chord held while letters, digits and symbols are typed
+    {
+        use KeyCode::*;
+        let d = |k| HOp::Ev(k, KeyState::Down);
+        let u = |k| HOp::Ev(k, KeyState::Up);
+        let typed = [Q, E, A, Key7, Key2, Oem4, Numpad7, F1];
+        let brackets: [(&[KeyCode], &str); 4] = [(&[LControl, RAltGr], "ctrl+altgr"), (&[LControl, LAlt], "ctrl+alt"), (&[RControl, RAltGr], "rctrl+altgr"), (&[LShift, RAltGr], "shift+altgr")];
+        for (chord, _) in brackets.iter() {
+            for reps in 1..=4usize {
+                for with_key in [false, true] {
+                    let mut h: Vec<HOp> = Vec::new();
+                    for r in 0..reps {
+                        h.extend(chord.iter().map(|k| d(*k)));
+                        if with_key {
+                            h.push(d(typed[r % typed.len()]));
+                            h.push(u(typed[r % typed.len()]));
+                        }
+                        h.extend(chord.iter().rev().map(|k| u(*k)));
+                    }
+                    // afterwards: plain, and with the chord (and each half of it) held
+                    for k in typed.iter() {
+                        h.push(d(*k));
+                        h.push(u(*k));
+                    }
+                    h.extend(chord.iter().map(|k| d(*k)));
+                    for k in typed.iter() {
+                        h.push(d(*k));
+                        h.push(u(*k));
+                    }
+                    h.push(u(chord[1]));
+                    for k in typed.iter() {
+                        h.push(d(*k));
+                        h.push(u(*k));
+                    }
+                    h.push(u(chord[0]));
+                    h.push(d(chord[1]));
+                    for k in typed.iter() {
+                        h.push(d(*k));
+                    }
+                    out.push(h);
+                }
+            }
+        }
+    }
     // many keys held at once (beyond any fixed-size list of held keys), modifiers pressed before or after them, then all the
     // other keys released in either order
     {
@@ -385,7 +469,7 @@ pub fn through_decoder(prop: &str, rep: &mut Report, cube: &Cube, focus: &[KeyCo
     let mut aba: Vec<Vec<HOp>> = Vec::new();
     for k in focus.iter().take(3) {
         // 2^k and its two neighbours (a tag that skips one value has period 2^k - 1)
-        for period in [255usize, 256, 257, 65_535, 65_536, 65_537] {
+        for period in [253usize, 254, 255, 256, 257, 258, 259, 65_533, 65_534, 65_535, 65_536, 65_537, 65_538, 65_539] {
             // (changes, final change): `period` events that are also `period` real state changes, ending in a state that
             // differs from the one of the first press and in which the property still constrains the key
             let alt = |key: KeyCode, n: usize| -> Vec<HOp> { (0..n).map(|i| HOp::Ev(key, if i % 2 == 0 { KeyState::Down } else { KeyState::Up })).collect() };
@@ -511,9 +595,19 @@ pub fn through_decoder(prop: &str, rep: &mut Report, cube: &Cube, focus: &[KeyCo
                 c,
                 std::thread::spawn(move || {
                     let mut all = Vec::new();
+                    if c == 0 {
+                        // the numpad shape rides on the first thread (small n only: it is cheap)
+                        for k in 8..=17u32 {
+                            for d in -3i64..=3 {
+                                if let Ok(obs) = guarded(|| numlock_aba(dyn_layout(li, 0), KeyCode::Numpad7, ((1i64 << k) + d) as u64)) {
+                                    all.push((100 + k, obs));
+                                }
+                            }
+                        }
+                    }
                     for k in 9..=kmax {
                         // 2^k, and for the smaller ones its two neighbours as well
-                        let ns: &[i64] = if k <= 20 { &[0, -1, 1] } else { &[0] };
+                        let ns: &[i64] = if k <= 18 { &[0, -1, 1, -2, 2, -3, 3] } else { &[0] };
                         for d in ns {
                             match guarded(|| big_aba(dyn_layout(li, 0), key, tog, alt, last, ((1i64 << k) + d) as u64)) {
                                 Ok(obs) => all.push((k, obs)),
@@ -528,8 +622,11 @@ pub fn through_decoder(prop: &str, rep: &mut Report, cube: &Cube, focus: &[KeyCo
         for (li, c, h) in handles {
             match h.join() {
                 Ok(Ok(all)) => {
-                    let Some(ki) = cube.key_index(key) else { continue };
                     for (k, obs) in all {
+                        // entries numbered 100 + k are the numpad shape (Numpad7)
+                        let numpad_shape = k >= 100;
+                        let (key, k) = if numpad_shape { (KeyCode::Numpad7, k - 100) } else { (key, k) };
+                        let Some(ki) = cube.key_index(key) else { continue };
                         rep.count("aba_2^k_histories", 1);
                         rep.count("aba_2^k_events", 2u64 << k);
                         for o in obs {
@@ -540,8 +637,8 @@ pub fn through_decoder(prop: &str, rep: &mut Report, cube: &Cube, focus: &[KeyCo
                                 rep.violate(
                                     format!("{}|via-decoder|{}|key={:?}|want={}|got={}", prop, layout_name(li), key, want, gs),
                                     format!(
-                                        "{} through Keyboard::process_keyevent, history with exactly 2^{} changes (#{}: {:?} … then {:?}), press '{}': {:?} with reported modifiers {} (Ctrl mode {}) typed {}; the property requires {}",
-                                        layout_name(li), k, c, BIG_COMBOS[c].0, BIG_COMBOS[c].2, o.step, key, mods_str(o.mods), mode_str(o.mode), gs, want
+                                        "{} through Keyboard::process_keyevent, history with about 2^{} changes ({}), press '{}': {:?} with reported modifiers {} (Ctrl mode {}) typed {}; the property requires {}",
+                                        layout_name(li), k, if numpad_shape { "NumLock off, the key, n-1 CapsLock presses and one NumLock press for n = 2^k-3..2^k+3".to_string() } else { format!("#{}: {:?} … then {:?}, n = 2^k-3..2^k+3", c, BIG_COMBOS[c].0, BIG_COMBOS[c].2) }, o.step, key, mods_str(o.mods), mode_str(o.mode), gs, want
                                     ),
                                     J::obj().with("kind", J::s("aba-2^k")).with("k", J::u(k as u64)).with("layout", J::s(layout_name(li))).with("combo", J::u(c as u64)).with("step", J::s(o.step)),
                                 );
@@ -552,6 +649,63 @@ pub fn through_decoder(prop: &str, rep: &mut Report, cube: &Cube, focus: &[KeyCo
                 _ => rep.count("via_decoder_histories_aborted_by_a_panic", 1),
             }
         }
+    }
+    // heavy typing, then a change of layout (EventDecoder<AnyLayout>): for each focus key K that two layouts A and B type
+    // differently – tens of thousands of presses in alternating modifier contexts on A, K, as many presses again,
+    // change_layout(B), K: what was typed on A, and how much of it, must not show on B
+    {
+        use pc_keyboard::EventDecoder;
+        let b = (rep.seed as usize) % 10;
+        let mut scenarios = 0u64;
+        for k in focus.iter().take(24) {
+            let Some(ki) = cube.key_index(*k) else { continue };
+            // a layout that types this key differently (NumLock on, nothing held, mapping mode)
+            let Some(a) = (0..10usize).find(|a| *a != b && cube.get(*a, 0, ki, 0, B_NUMLOCK) != cube.get(b, 0, ki, 0, B_NUMLOCK)) else { continue };
+            // the keys used for the bulk typing differ from K in the low bits of their code (a table indexed by them keeps K)
+            let bulk: Vec<KeyCode> = [KeyCode::Key1, KeyCode::Oem4, KeyCode::Key6, KeyCode::W, KeyCode::Oem2, KeyCode::H]
+                .into_iter()
+                .filter(|c| (*c as u8 ^ *k as u8) & 0x3F != 0 && (*c as u8 ^ *k as u8) & 0x0F != 0)
+                .take(2)
+                .collect();
+            if bulk.len() < 2 {
+                continue;
+            }
+            let key = *k;
+            let r = guarded(|| {
+                let mut dec = EventDecoder::new(any_value(a), HandleControl::MapLettersToUnicode);
+                let ev = |dec: &mut EventDecoder<pc_keyboard::layouts::AnyLayout>, k: KeyCode, s: KeyState| dec.process_keyevent(KeyEvent::new(k, s));
+                let churn = |dec: &mut EventDecoder<pc_keyboard::layouts::AnyLayout>, n: usize| {
+                    for i in 0..n {
+                        ev(dec, KeyCode::LShift, if i % 2 == 0 { KeyState::Down } else { KeyState::Up });
+                        ev(dec, bulk[(i / 2) % 2], KeyState::Down);
+                    }
+                    ev(dec, KeyCode::LShift, KeyState::Up);
+                };
+                churn(&mut dec, 35_000);
+                let _ = ev(&mut dec, key, KeyState::Down);
+                let _ = ev(&mut dec, key, KeyState::Up);
+                churn(&mut dec, 35_000);
+                dec.change_layout(any_value(b));
+                ev(&mut dec, key, KeyState::Down)
+            });
+            scenarios += 1;
+            if let Ok(got) = r {
+                presses += 1;
+                let got = got.map(dk_enc).unwrap_or(ENC_NONE);
+                if let Some(want) = judge(cube, acc, b, key, ki, B_NUMLOCK, 0, got, &mut judged) {
+                    let gs = if got == ENC_NONE { "None".to_string() } else { cube.show(got) };
+                    rep.violate(
+                        format!("{}|via-decoder|{}|key={:?}|want={}|got={}", prop, layout_name(b), key, want, gs),
+                        format!(
+                            "EventDecoder<AnyLayout>: 35 000 presses on {}, {:?}, 35 000 more presses, change_layout to {}: the press of {:?} (NumLock on, nothing held, Ctrl mode Map) typed {}; the property requires {}",
+                            layout_name(a), key, layout_name(b), key, gs, want
+                        ),
+                        J::obj().with("kind", J::s("heavy-typing-then-switch")).with("from", J::s(layout_name(a))).with("to", J::s(layout_name(b))).with("key", J::s(kname(key))),
+                    );
+                }
+            }
+        }
+        rep.count("heavy_typing_then_change_of_layout_scenarios", scenarios);
     }
     // collision-guided pairs: presses that leave a field of the Keyboard's rendering equal although their inputs differ
     {
